@@ -39,6 +39,7 @@ type vrtReqParamV struct {
 	key        string
 	qHas, bHas bool
 	qVal, bVal string
+	qRaw       *string // raw text in the query (nil: url.QueryEscape(qVal))
 }
 
 type vrtReq struct {
@@ -59,7 +60,40 @@ func vrtReqParam(rb *vrtReq, key string, inQuery bool, qv string, inBody bool, b
 	if inBody && !(rb.method == "POST" || rb.method == "PUT" || rb.method == "PATCH") {
 		panic(vrtStop{"body parameter on a method without form body"})
 	}
-	rb.params = append(rb.params, vrtReqParamV{key, inQuery, inBody, qv, bv})
+	rb.params = append(rb.params, vrtReqParamV{key, inQuery, inBody, qv, bv, nil})
+}
+
+// vrtReqParamRaw places a query parameter with the given raw (percent-encoded)
+// text; val is what that text decodes to.
+func vrtReqParamRaw(rb *vrtReq, key string, has bool, raw, val string) {
+	if got, err := url.QueryUnescape(raw); err != nil || got != val {
+		panic(vrtStop{"raw query text does not decode to the value"})
+	}
+	rb.params = append(rb.params, vrtReqParamV{key: key, qHas: has, qVal: val, qRaw: &raw})
+}
+
+// vrtEscapeStyle percent-encodes s for a query string in one of the legal
+// styles: 0 Go's url.QueryEscape, 1 lower-case hex digits, 2 "%20" for a blank.
+func vrtEscapeStyle(style int, s string) string {
+	e := url.QueryEscape(s)
+	switch style {
+	case 1:
+		b := []byte(e)
+		for i := 0; i+2 < len(b); i++ {
+			if b[i] == '%' {
+				for j := i + 1; j <= i+2; j++ {
+					if b[j] >= 'A' && b[j] <= 'F' {
+						b[j] += 'a' - 'A'
+					}
+				}
+				i += 2
+			}
+		}
+		return string(b)
+	case 2:
+		return strings.ReplaceAll(e, "+", "%20")
+	}
+	return e
 }
 
 func vrtReqBody(rb *vrtReq, raw string, failRead bool) {
@@ -138,7 +172,11 @@ func vrtReqBuild(rb *vrtReq) *http.Request {
 	}
 	for _, p := range params {
 		if p.qHas {
-			q = append(q, url.QueryEscape(p.key)+"="+url.QueryEscape(p.qVal))
+			if p.qRaw != nil {
+				q = append(q, url.QueryEscape(p.key)+"="+*p.qRaw)
+			} else {
+				q = append(q, url.QueryEscape(p.key)+"="+url.QueryEscape(p.qVal))
+			}
 		}
 		if p.bHas {
 			if !(rb.method == "POST" || rb.method == "PUT" || rb.method == "PATCH") {
